@@ -510,8 +510,14 @@ func (lr *limitReader) Read(p []byte) (int, error) {
 	}
 	n, err := lr.r.Read(p)
 	lr.n -= int64(n)
-	if lr.n < 0 {
+	if lr.n <= 0 {
+		// limit+1 bytes have been read, so the message is too big, even if the
+		// underlying reader reported the end of the message together with the
+		// last byte (as flate does for a final block).
 		lr.n = 0
+		err := fmt.Errorf("read limited at %v bytes", lr.limit.Load())
+		lr.c.writeError(StatusMessageTooBig, err)
+		return n, err
 	}
 	return n, err
 }
